@@ -168,6 +168,14 @@ func NewCluster(opt Options, sink Sink) *Cluster {
 	if smopt == nil {
 		smopt = func(uint64, uint64) SMOptions { return SMOptions{Kind: Regular, RecordApply: true} }
 	}
+	userOpt := smopt
+	smopt = func(shardID, replicaID uint64) SMOptions {
+		o := userOpt(shardID, replicaID)
+		if o.AtSite == nil {
+			o.AtSite = func(host int, site int32) { c.Hosts[host].AtPoint(site) }
+		}
+		return o
+	}
 	c.SMs = NewSMRegistry(c.Clock, sink, smopt)
 	for i := 0; i < opt.Hosts; i++ {
 		h := &Host{Index: i, Addr: fmt.Sprintf("host%d:%d", i+1, 26000+i), c: c,
